@@ -17,8 +17,9 @@ from _util import *
 _built = {}
 
 
-def build(spec, registry):
-    """dataclass for a spec (bottom-up); registry: name -> class"""
+def build(spec, registry, root_bases=()):
+    """dataclass for a spec (bottom-up); registry: name -> class.  Declaration styles: per-field
+    kw_only, class-level kw_only / frozen / slots, a base class holding a prefix of the fields."""
     fields = []
     for f in spec['fields']:
         if f['kind'] == 'leaf':
@@ -30,6 +31,8 @@ def build(spec, registry):
         if not f['init']:
             kw['init'] = False
             kw['repr'] = False
+        if f.get('kw_only'):
+            kw['kw_only'] = True
         if f['dflt'] == 'def':
             kw['default'] = f['default']
             if f['kind'] == 'nested' and f['default'] is None:
@@ -41,7 +44,20 @@ def build(spec, registry):
                 inner_spec = f['cls']
                 kw['default_factory'] = (lambda s=inner_spec: make_full(s, registry))
         fields.append((f['name'], tp, dataclasses.field(**kw)))
-    cls = dataclasses.make_dataclass(spec['name'], fields)
+    opts = {}
+    if spec.get('kw_only_cls'):
+        opts['kw_only'] = True
+    if spec.get('frozen'):
+        opts['frozen'] = True
+    if spec.get('slots'):
+        opts['slots'] = True
+    bases = tuple(root_bases)
+    k = spec.get('base_split')
+    if k:
+        base = dataclasses.make_dataclass(spec['name'] + 'Base', fields[:k], bases=bases, **opts)
+        bases = (base,)
+        fields = fields[k:]
+    cls = dataclasses.make_dataclass(spec['name'], fields, bases=bases, **opts)
     cls.__qualname__ = spec['name']
     registry[spec['name']] = cls
     return cls
@@ -134,32 +150,64 @@ def cached_products(cls, acc):
                 acc.append(v)
 
 
+def loader_for(cls, entry):
+    """the documented ways to load one dict"""
+    from dataclass_wizard import fromdict, fromlist
+    import json
+    if entry == 'fromlist':
+        return lambda d: fromlist(cls, [d])[0]
+    if entry == 'from_dict':
+        return lambda d: cls.from_dict(d)
+    if entry == 'from_json':
+        return lambda d: cls.from_json(json.dumps(d))
+    return lambda d: fromdict(cls, d)
+
+
+def mutate_products(products):
+    for x in products:
+        if isinstance(x, list):
+            x.append(12345)
+        elif isinstance(x, dict):
+            x['mutated'] = 1
+        elif dataclasses.is_dataclass(x):
+            for f in dataclasses.fields(x):
+                v = getattr(x, f.name, None)
+                if isinstance(v, list):
+                    v.append(12345)
+
+
 def run_class(item):
-    from dataclass_wizard import fromdict, LoadMeta
+    from dataclass_wizard import LoadMeta, JSONWizard
     from dataclass_wizard.errors import MissingFields
     import copy
     spec = item['spec']
+    entry = item.get('entry', 'fromdict')
     registry = {}
     try:
-        cls = build(spec, registry)
+        cls = build(spec, registry, root_bases=((JSONWizard,) if entry in ('from_dict', 'from_json') else ()))
         if item['engine'] == 'v1':
             LoadMeta(v1=True).bind_to(cls)
+        load = loader_for(cls, entry)
     except BaseException as e:
         r = err_info(e); r['phase'] = 'setup'
         return [r for _ in item['docs']]
     out = []
     for doc in item['docs']:
         res = {}
-        insts = []
         products = []
         before = copy.deepcopy(doc)
-        for rep in (0, 1):
+        for rep in (0, 1, 2):
+            if rep == 2:
+                # use the earlier instances (mutate their default_factory products), then load again
+                if 'ok' not in res:
+                    break
+                mutate_products(products)
             try:
-                inst = fromdict(cls, doc)
-                insts.append(inst)
+                inst = load(doc)
                 p = []
                 tree = walk(inst, spec, doc, p, registry)
-                products.extend(p)
+                if rep < 2:
+                    products.extend(p)
                 r = {'ok': tree, 'n_products': len(p)}
             except MissingFields as e:
                 r = err_info(e)
@@ -167,11 +215,17 @@ def run_class(item):
                 r['missing_fields'] = list(e.missing_fields)
             except BaseException as e:
                 r = err_info(e)
+                be = getattr(e, 'base_error', None)
+                if be is not None:
+                    r['base'] = type(be).__name__
+                    r['base_msg'] = str(be)[:200]
             if rep == 0:
                 res = r
-            else:
+            elif rep == 1:
                 res['repeat_same'] = ({k: v for k, v in r.items() if k != 'msg'} ==
                                       {k: v for k, v in res.items() if k not in ('msg', 'repeat_same')})
+            else:
+                res['after_mutation_same'] = (r.get('ok') == res.get('ok'))
         if 'ok' in res:
             cached = []
             cached_products(cls, cached)
@@ -182,36 +236,166 @@ def run_class(item):
     return out
 
 
+# ---- classes with key-path fields (path_field / KeyPath / AliasPath) ------------------------------
+@dataclasses.dataclass
+class PInner:
+    k: int = 1
+
+
+def build_path(spec, engine):
+    from typing import Annotated, Any, List, Dict
+    tps = {'int': int, 'str': str, 'ints': List[int], 'dict': Dict[str, int], 'any': Any, 'inst': PInner}
+    facs = {'ints': list, 'dict': dict, 'any': list, 'inst': PInner}
+    req, opt = [], []
+    for f in spec['fields']:
+        tp = tps[f['ty']]
+        kw = {}
+        if f['dflt'] == 'def':
+            kw['default'] = f['default']
+        elif f['dflt'] == 'fac':
+            kw['default_factory'] = facs[f['ty']]
+        if f.get('path'):
+            dotted = '.'.join(f['path'])
+            if engine == 'v1':
+                from dataclass_wizard.v1 import AliasPath
+                fld = AliasPath(dotted, **kw)
+            elif f.get('style') == 'keypath':
+                from dataclass_wizard import KeyPath
+                tp = Annotated[tp, KeyPath(dotted)]
+                fld = dataclasses.field(**kw)
+            else:
+                from dataclass_wizard import path_field
+                fld = path_field(dotted, **kw)
+        else:
+            fld = dataclasses.field(**kw)
+        (req if f['dflt'] == 'req' else opt).append((f['name'], tp, fld))
+    cls = dataclasses.make_dataclass(spec['name'], req + opt)
+    cls.__qualname__ = spec['name']
+    return cls
+
+
+def path_view(inst, spec):
+    out = {}
+    for f in spec['fields']:
+        v = getattr(inst, f['name'], '<unset>')
+        out[f['name']] = canon(v)
+    return out
+
+
+def run_pathclass(item):
+    from dataclass_wizard import fromdict, LoadMeta
+    from dataclass_wizard.errors import MissingFields
+    import copy
+    spec = item['spec']
+    try:
+        cls = build_path(spec, item['engine'])
+        if item['engine'] == 'v1':
+            LoadMeta(v1=True).bind_to(cls)
+    except BaseException as e:
+        r = err_info(e); r['phase'] = 'setup'
+        return [r for _ in item['docs']]
+    out = []
+    for doc in item['docs']:
+        before = copy.deepcopy(doc)
+        insts, res = [], None
+        for rep in (0, 1, 2):
+            try:
+                inst = fromdict(cls, doc)
+                r = {'ok': path_view(inst, spec)}
+                insts.append(inst)
+            except MissingFields as e:
+                r = err_info(e)
+                r['missing_fields'] = list(e.missing_fields)
+            except BaseException as e:
+                r = err_info(e)
+            if rep == 0:
+                res = r
+                if 'ok' not in r:
+                    break
+            elif rep == 1:
+                res['second'] = r.get('ok')
+                if 'ok' in r:
+                    # identity of the values of the factory fields in two instances
+                    shared = []
+                    for f in spec['fields']:
+                        if f['dflt'] == 'fac' and (f['name'] not in doc if not f.get('path') else
+                                                   not (isinstance(doc.get(f['path'][0]), dict) and f['path'][1] in doc[f['path'][0]])):
+                            a, b = getattr(insts[0], f['name'], None), getattr(insts[1], f['name'], None)
+                            if a is b and a is not None:
+                                shared.append(f['name'])
+                    res['shared'] = shared
+                    def absent(f):
+                        if f.get('path'):
+                            return not (isinstance(doc.get(f['path'][0]), dict) and f['path'][1] in doc[f['path'][0]])
+                        return f['name'] not in doc
+                    mutate_products([getattr(insts[0], f['name'], None) for f in spec['fields']
+                                     if f['dflt'] == 'fac' and absent(f)])
+            else:
+                res['after_mutation'] = r.get('ok') if 'ok' in r else {'err': r.get('err')}
+        res['input_unchanged'] = (doc == before)
+        out.append(res)
+    return out
+
+
 def run_witness(w):
     """known-finding witnesses"""
+    from dataclass_wizard import fromdict, LoadMeta
     if w['kind'] == 'path_factory':
         from dataclass_wizard import JSONWizard, path_field
-        from typing import Any
+        from typing import Any, List
 
         @dataclasses.dataclass
         class PF(JSONWizard):
             x: Any = path_field('a.b', default_factory=list)
+            y: List[int] = path_field('a.c', default_factory=list)
 
         p = PF.from_dict({})
         q = PF.from_dict({})
         shared = p.x is q.x
+        typed_shared = p.y is q.y          # must be False: List[int] is rebuilt by the parser
         p.x.append(1)
         leaked = PF.from_dict({}).x == [1]
 
         @dataclasses.dataclass
-        class PI:
-            k: int = 1
+        class PG(JSONWizard):
+            w: PInner = path_field('a.w', default_factory=PInner)
+        r = outcome(PG.from_dict, {})
+        return {'shared': shared, 'leaked': leaked, 'typed_shared': typed_shared, 'dataclass_default': r}
+    if w['kind'] == 'v1_kwonly':
+        @dataclasses.dataclass
+        class KA:
+            a: int
+            k: int = dataclasses.field(kw_only=True)
+        LoadMeta(v1=True).bind_to(KA)
+        r = outcome(fromdict, KA, {'a': 1, 'k': 5})
 
         @dataclasses.dataclass
-        class PG(JSONWizard):
-            w: PI = path_field('a.w', default_factory=PI)
-        r = outcome(PG.from_dict, {})
-        return {'shared': shared, 'leaked': leaked, 'dataclass_default': r}
+        class KB:
+            a: int
+            k: int = dataclasses.field(kw_only=True)
+        r0 = outcome(fromdict, KB, {'a': 1, 'k': 5})
+        return {'v1_complete': r, 'v0_complete': r0}
+    if w['kind'] == 'required_path':
+        from dataclass_wizard import path_field
+
+        @dataclasses.dataclass
+        class RP:
+            req: int = path_field('meta.req')
+        r0 = outcome(fromdict, RP, {'meta': {}})
+        from dataclass_wizard.v1 import AliasPath
+
+        @dataclasses.dataclass
+        class RQ:
+            req: int = AliasPath('meta.req')
+        LoadMeta(v1=True).bind_to(RQ)
+        r1 = outcome(fromdict, RQ, {'meta': {}})
+        return {'v0': r0, 'v1': r1}
     return {'error': 'unknown witness kind'}
 
 
 def handler(p):
     return {'classes': [run_class(c) for c in p.get('classes', [])],
+            'pathclasses': [run_pathclass(c) for c in p.get('pathclasses', [])],
             'witness': [run_witness(w) for w in p.get('witness', [])]}
 
 
